@@ -13,8 +13,8 @@ def stmt(name):
 
 
 old = open(os.path.join(TH, "Props.v")).read()
-hdr = old[:old.index("Theorem C14_well_formed")]
-items = [("C14_well_formed", "all_well_formed"), ("C14_counts", "all_counts"), ("C14_topology", "all_topology"),
+hdr = old[:old.index("Theorem C14_")]
+items = [("C14_rejects", "all_rejects"), ("C14_well_formed", "all_well_formed"), ("C14_counts", "all_counts"), ("C14_topology", "all_topology"),
          ("C14_vertex_manifold", "all_vertex_manifold"),
          ("C14_tables", "all_tables"), ("C14_table_counts", "all_table_counts"),
          ("C14_params_honoured", "all_switches"), ("C14_ring_apex_defect", "ring_apex"), ("C14_ring_defect_clamped", "ring_clamp_range"),
